@@ -1,9 +1,11 @@
 (* Generated-vs-handwritten tie for the rank scorers Dowdall, Geometric, ModifiedBorda, FixedTop: the per-rank
    score expressions regenerated from votelib/component/rankscore.py on every run (Gen/Rankscore.v) give exactly the
    score lists of Model/Convert.v [rank_scores] (the scorers of the positional converter, C13 / C17).
-   Borda (stateful) and SequenceBased (slicing) are tied by correspondence only. *)
+   Second part (typed translation): select_padded (slicing / padding), Borda.set_n_candidates / Borda.scores on an
+   initialised scorer and SequenceBased.scores are the list functions of Model/Convert.v (select_padded, rank_scores) and
+   the stored-state functions of Model/State.v (borda_set_n, borda_scores_st; C18). *)
 From Coq Require Import ZArith QArith Qpower List Lia Bool.
-From VL Require Import Prelude.PyNum Model.Convert.
+From VL Require Import Prelude.PyDict Prelude.PyNum Prelude.PyList Model.Convert Model.State.
 From VL Require Gen.Rankscore.
 Import ListNotations.
 Open Scope Q_scope.
@@ -60,3 +62,93 @@ Theorem GenTie_Rankscore :
   (forall base n_cands n, (0 < base)%Z -> exists l, rank_scores (Geometric base) n_cands n = Some l /\ Forall2 Qeq (gen_list (Gen.Rankscore.Geometric_score base) n) l).
 Proof. exact (conj tie_dowdall (conj tie_modified_borda (conj tie_fixed_top tie_geometric))). Qed.
 Print Assumptions GenTie_Rankscore.
+
+(* ================================================================ select_padded, Borda, SequenceBased
+   (typed translation: list slicing / padding as list functions, Borda's stored score list) *)
+Lemma concat_repeat_singleton {A} (x : A) k : concat (repeat [x] k) = repeat x k.
+Proof. induction k as [|k IH]; [reflexivity|]. cbn. rewrite IH. reflexivity. Qed.
+
+(* select_padded(sequence, n, pad_with) for n >= 0: the first n items, padded to length n *)
+Lemma gen_select_padded_spec : forall (s : list Q) (n : nat) (p : Q),
+  Gen.Rankscore.select_padded s (Z.of_nat n) p = firstn n s ++ repeat p (n - length (firstn n s)).
+Proof.
+  intros s n p. unfold Gen.Rankscore.select_padded. cbv zeta.
+  unfold py_slice_to. replace (0 <=? Z.of_nat n)%Z with true by (symmetry; apply Z.leb_le; lia).
+  rewrite Nat2Z.id. unfold py_len, py_list_mul.
+  set (sel := firstn n s).
+  destruct (Z.of_nat (length sel) <? Z.of_nat n)%Z eqn:E.
+  - rewrite concat_repeat_singleton. f_equal. f_equal. apply Z.ltb_lt in E. lia.
+  - apply Z.ltb_ge in E. replace (n - length sel)%nat with 0%nat by lia. cbn [repeat]. rewrite app_nil_r. reflexivity.
+Qed.
+
+Lemma tie_select_padded : forall s n, Gen.Rankscore.select_padded s (Z.of_nat n) 0 = select_padded s n.
+Proof. intros s n. rewrite gen_select_padded_spec. reflexivity. Qed.
+
+(* Borda.set_n_candidates: the stored score list (ints in the source, injected into Q) *)
+Lemma tie_borda_set_n : forall base k,
+  map inject_Z (Gen.Rankscore.Borda_set_n_candidates base (Z.of_nat k)) =
+  map (fun r => inject_Z (Z.of_nat k + base - 1 - Z.of_nat r)) (seq 0 k).
+Proof.
+  intros base k. unfold Gen.Rankscore.Borda_set_n_candidates, py_range. cbv zeta.
+  rewrite Nat2Z.id, !map_map. apply map_ext. intros r. reflexivity.
+Qed.
+
+Lemma tie_borda_set_n_state : forall base k,
+  b_scores (borda_set_n base k) = Some (map inject_Z (Gen.Rankscore.Borda_set_n_candidates base (Z.of_nat k))) /\
+  b_n (borda_set_n base k) = Some k.
+Proof. intros base k. rewrite tie_borda_set_n. split; reflexivity. Qed.
+
+(* Borda.scores on an initialised scorer: ValueError when more ranks than candidates, else the padded selection *)
+Definition exn_of (r : list Q + borda_err) : list Q + pyexn :=
+  match r with inl l => inl l | inr BE_value => inr PyValueError | inr BE_runtime => inr PyRuntimeError end.
+
+Lemma tie_borda_scores : forall k sc n,
+  Gen.Rankscore.Borda_scores (Z.of_nat k) sc (Z.of_nat n) = exn_of (borda_scores_st {| b_n := Some k; b_scores := Some sc |} n).
+Proof.
+  intros k sc n. unfold Gen.Rankscore.Borda_scores, borda_scores_st. cbn [b_n b_scores].
+  destruct (Nat.ltb k n) eqn:E.
+  - apply Nat.ltb_lt in E. replace (Z.of_nat k <? Z.of_nat n)%Z with true by (symmetry; apply Z.ltb_lt; lia). reflexivity.
+  - apply Nat.ltb_ge in E. replace (Z.of_nat k <? Z.of_nat n)%Z with false by (symmetry; apply Z.ltb_ge; lia).
+    cbn [exn_of]. f_equal. apply (tie_select_padded sc n).
+Qed.
+
+(* both together = the Borda scorer of the positional converter (Model/Convert.v rank_scores, C13 / C17) *)
+Lemma tie_borda : forall base n_cands n,
+  Gen.Rankscore.Borda_scores (Z.of_nat n_cands) (map inject_Z (Gen.Rankscore.Borda_set_n_candidates base (Z.of_nat n_cands))) (Z.of_nat n) =
+  match rank_scores (Borda base) n_cands n with Some l => inl l | None => inr PyValueError end.
+Proof.
+  intros base n_cands n. rewrite tie_borda_scores, tie_borda_set_n. unfold borda_scores_st, rank_scores. cbn [b_n b_scores].
+  destruct (Nat.ltb n_cands n); reflexivity.
+Qed.
+
+Lemma tie_sequence_based : forall sq n_cands n,
+  rank_scores (SequenceBased sq) n_cands n = Some (Gen.Rankscore.SequenceBased_scores sq (Z.of_nat n)).
+Proof.
+  intros sq n_cands n. unfold Gen.Rankscore.SequenceBased_scores. cbn [rank_scores]. f_equal. symmetry. apply (tie_select_padded sq n).
+Qed.
+
+Theorem GenTie_Rankscore_lists :
+  (forall s n, Gen.Rankscore.select_padded s (Z.of_nat n) 0 = select_padded s n) /\
+  (forall base k, b_scores (borda_set_n base k) = Some (map inject_Z (Gen.Rankscore.Borda_set_n_candidates base (Z.of_nat k))) /\
+                  b_n (borda_set_n base k) = Some k) /\
+  (forall k sc n, Gen.Rankscore.Borda_scores (Z.of_nat k) sc (Z.of_nat n) = exn_of (borda_scores_st {| b_n := Some k; b_scores := Some sc |} n)) /\
+  (forall base n_cands n,
+     Gen.Rankscore.Borda_scores (Z.of_nat n_cands) (map inject_Z (Gen.Rankscore.Borda_set_n_candidates base (Z.of_nat n_cands))) (Z.of_nat n) =
+     match rank_scores (Borda base) n_cands n with Some l => inl l | None => inr PyValueError end) /\
+  (forall sq n_cands n, rank_scores (SequenceBased sq) n_cands n = Some (Gen.Rankscore.SequenceBased_scores sq (Z.of_nat n))).
+Proof. exact (conj tie_select_padded (conj tie_borda_set_n_state (conj tie_borda_scores (conj tie_borda tie_sequence_based)))). Qed.
+
+(* non-vacuity: the generated functions on concrete inputs (CPython: Borda(base=1), set_n_candidates(4): scores(3) == [4, 3, 2];
+   scores(5) raises ValueError; SequenceBased([12, 10, 8]).scores(5) == [12, 10, 8, 0, 0]) *)
+Example gen_borda_4_3 :
+  Gen.Rankscore.Borda_scores 4 (map inject_Z (Gen.Rankscore.Borda_set_n_candidates 1 4)) 3 = inl [4 # 1; 3 # 1; 2 # 1].
+Proof. reflexivity. Qed.
+Example gen_borda_4_5 :
+  Gen.Rankscore.Borda_scores 4 (map inject_Z (Gen.Rankscore.Borda_set_n_candidates 1 4)) 5 = inr PyValueError.
+Proof. reflexivity. Qed.
+Example gen_seq_pad : Gen.Rankscore.SequenceBased_scores [12 # 1; 10 # 1; 8 # 1] 5 = [12 # 1; 10 # 1; 8 # 1; 0; 0].
+Proof. reflexivity. Qed.
+Example gen_seq_cut : Gen.Rankscore.SequenceBased_scores [12 # 1; 10 # 1; 8 # 1] 2 = [12 # 1; 10 # 1].
+Proof. reflexivity. Qed.
+
+Print Assumptions GenTie_Rankscore_lists.
